@@ -405,7 +405,17 @@ def add_hostile_permissions(L, rng, args):
     byp = dict((nd['p'], nd) for nd in L.nodes)
     real = [a for a in args if a.get('rel') and a['rel'] in byp]
     variant = rng.choice(['ro-parent', 'ro-dir-entry', 'ro-trash-files',
-                          'ro-trash-info', 'ro-trash-dir'])
+                          'ro-trash-info', 'ro-trash-dir', 'ro-tree'])
+    if variant == 'ro-tree':
+        # chmod -R a-w on the tree around it: the entry is a read-only
+        # directory AND its parent is read-only (two obstacles, one cure each)
+        dirs = [a for a in real if byp[a['rel']].get('t') == 'd' and
+                byp.get(os.path.dirname(a['rel']), {}).get('t') == 'd']
+        if dirs:
+            a = rng.choice(dirs)
+            byp[a['rel']]['m'] = 0o555
+            byp[os.path.dirname(a['rel'])]['m'] = 0o555
+            return variant
     if variant == 'ro-parent' and real:
         a = rng.choice(real)
         par = os.path.dirname(a['rel'])
@@ -516,7 +526,7 @@ def gen_case(rng, index, tier):
         stdin = ''
     add_stale(L, rng, args, index)
     add_partial_trash_dirs(L, rng)
-    perm = add_hostile_permissions(L, rng, args) if rng.random() < 0.06 else None
+    perm = add_hostile_permissions(L, rng, args) if rng.random() < 0.08 else None
     case = L.desc()
     if perm:
         # run without the capabilities that let root ignore mode bits
